@@ -1,7 +1,7 @@
 """C06 -- requested mask used; automatic mask minimises the ISO penalty."""
 import common, enc, gen, sweep, encprop, impl
 
-TOP = ['theories/Props/C06.v', 'theories/Tie/TieTables.v', 'theories/Tie/TieFuns.v', 'theories/Tie/TieMaskArg.v']
+TOP = ['theories/Props/C06.v', 'theories/Tie/TieTables.v', 'theories/Tie/TieFuns.v', 'theories/Tie/TieMaskArg.v', 'theories/Tie/TieMask.v']
 WANT = ('decode', 'bestmask')
 RULE = ('symbols of every version class with automatic mask: all candidates are recomputed from the implementation matrix by '
         'unmask/remask with ISO Table 10 and scored with an independent ISO 7.8.3 scorer (extracted), the lowest-numbered optimum '
@@ -80,13 +80,27 @@ def scorer_checks(ctx):
             fails.append({'input': {'matrix': r}, 'observed': 'mask_scores=%s sum %d' % (g, sum(g)), 'expected': 'ISO penalty %s' % i})
     # micro
     mm = [[[rng.randrange(2) for _ in range(s)] for _ in range(s)] for s in (11, 13, 15, 17) for _ in range(30)]
+    # every pair (dark modules in the right column, dark modules in the bottom row), incl. the extremes 0 and size-1
+    for sz in (11, 13, 15, 17):
+        for a in range(sz):
+            for b in range(sz):
+                m = [[rng.randrange(2) for _ in range(sz)] for _ in range(sz)]
+                col = [1] * a + [0] * (sz - 1 - a)
+                row = [1] * b + [0] * (sz - 1 - b)
+                rng.shuffle(col)
+                rng.shuffle(row)
+                for k in range(1, sz):
+                    m[k][sz - 1] = col[k - 1] if k - 1 < len(col) else 0
+                    m[sz - 1][k] = row[k - 1] if k - 1 < len(row) else 0
+                if a <= sz - 1 and b <= sz - 1:
+                    mm.append(m)
     rows = ['/'.join(''.join(map(str, r)) for r in m) for m in mm]
     got = [impl.encoder.evaluate_micro_mask(tuple(bytearray(r) for r in m), len(m), len(m)) for m in mm]
     iso = common.oracle_parallel(['iso_micro_score ' + r for r in rows], chunk=40)
     for r, g, i in zip(rows, got, iso):
         n += 1
         if g != int(i):
-            fails.append({'input': {'matrix': r}, 'observed': 'evaluate_micro_mask=%d' % g, 'expected': 'ISO 7.8.3.2 score %s' % i})
+            fails.append({'input': {'matrix': r, 'scorer': 'micro'}, 'observed': 'evaluate_micro_mask=%d' % g, 'expected': 'ISO 7.8.3.2 score %s' % i})
     return fails, corr, n
 
 
@@ -124,6 +138,11 @@ def run(ctx):
 def replay(rec):
     if 'matrix' in rec['input']:
         m = [[int(c) for c in r] for r in rec['input']['matrix'].split('/')]
+        if rec['input'].get('scorer') == 'micro':
+            g = impl.encoder.evaluate_micro_mask(tuple(bytearray(r) for r in m), len(m), len(m))
+            i = common.oracle(['iso_micro_score ' + rec['input']['matrix']])[0]
+            print('evaluate_micro_mask', g, 'ISO 7.8.3.2 score', i)
+            return 1 if g != int(i) else 0
         g = impl.encoder.mask_scores(tuple(bytearray(r) for r in m), len(m), len(m))
         i = common.oracle(['iso_penalty ' + rec['input']['matrix']])[0]
         print('mask_scores', g, 'sum', sum(g), 'ISO penalty', i)
